@@ -72,6 +72,11 @@ class Interp:
                 raise PyRaise(builtin_exc('UnboundLocalError'), name)
             f = f.parent
         mod = frame.module
+        if self.ctx is not None:
+            # contract-level stand-ins for module globals (abstract constructors): {(module name, global name): value}
+            ov = self.ctx.ghost.get('global_overrides')
+            if ov and (mod.name, name) in ov:
+                return ov[(mod.name, name)]
         if mod.has(name):
             return mod.get(name, self)
         return self.builtin(name)
@@ -369,6 +374,15 @@ class Interp:
         if len(node.generators) == 1 and not node.generators[0].ifs and not node.generators[0].is_async:
             g = node.generators[0]
             src = self.eval(g.iter, fr)
+            if isinstance(src, Arr) and src.ndim >= 1 and not isinstance(simp(src.shape[0]), int):
+                # the rows (elements) of an array of symbolic length
+                def row(k, a=src):
+                    if a.ndim == 1:
+                        return a.f((k,))
+                    v = Arr(a.shape[1:], lambda ix: a.f((k,) + tuple(ix)), a.dtype)
+                    v.view_of = (a, k)
+                    return v
+                src = SymList(src.shape[0], row, 'array rows')
             if isinstance(src, SymList):
                 # map over a list of symbolic length: element k of the result is elt[target := src[k]].  The element
                 # expression is evaluated once at an arbitrary index (exceptions and branches surface there; a branch on
@@ -381,9 +395,9 @@ class Interp:
                     return self.eval(node.elt, sub)
                 k0 = self.ctx.fresh_int('k!comp')
                 self.ctx.assume(z3.And(0 <= k0, k0 < to_z3(n)))
-                depth = len(self.ctx.decisions) if hasattr(self.ctx, 'decisions') else None
+                depth = len(self.ctx.worklist) if hasattr(self.ctx, 'worklist') else None
                 at(k0)
-                if depth is not None and len(self.ctx.decisions) != depth:
+                if depth is not None and len(self.ctx.worklist) != depth:
                     raise Unsupported('branching element expression in a comprehension over a symbolic list')
                 return SymList(n, at, 'comprehension')
         return list(self._comp(node, fr))
